@@ -117,14 +117,6 @@ example : fragment [({ ts := 1000, res := [97], pass := 1, block := 0, complete 
 
 /-! ## 5. L1 → L0: the search of a fresh searcher -/
 
-theorem filter_nil_of_lt (l : List Item) (b e : Nat) (res : Bytes) (h : ∀ it ∈ l, it.ts / 1000 < b / 1000) :
-    l.filter (fun it => inRange b e it && resMatch res it) = [] := by
-  rw [List.filter_eq_nil_iff]
-  intro it hit
-  have := h it hit
-  have : ¬ b / 1000 ≤ it.ts / 1000 := by omega
-  simp [inRange, this]
-
 /-- **search_complete_sorted_nodup, partial** (fresh searcher; intact files; index correct for `begin`):
     `FindByTimeAndResource` returns exactly the reference answer — every retained item in range with the
     resource, in writing order, once — whatever the number of files and rolls. -/
